@@ -16,7 +16,7 @@ TECHNIQUE = (
 )
 LEVEL_TEXT = (
     "Per generated frame (both algorithms, APDU lengths 1..240, group / tag-group / broadcast) the single-bit-flip space is completed "
-    "(exhaustive per frame), plus every truncation length and wrong keys; the receiver also knows every one-bit neighbour of the "
+    "(exhaustive per frame), plus every truncation length, length-changing edits of the secured APDU with the length octet repaired (append 1..16 zero / other octets, strip 1..16 trailing octets, insert / delete an octet at every position; half of the APDUs end in 0x00) and wrong keys; the receiver also knows every one-bit neighbour of the "
     "sender and holds the same key for every one-bit neighbour of the destination, so a rejection has to come from the MAC. "
     "Exploration: frames themselves are sampled."
 )
@@ -132,7 +132,37 @@ def _variant(raw, variant):
         cut = bytearray(raw[: variant[1]])
         cut[8] = len(cut) - 10
         return bytes(cut)
-    return raw
+    # length-changing edits of the secured APDU (octets 18 .. -5), length octet repaired
+    head, sec, mac = bytearray(raw[:18]), bytearray(raw[18:-4]), raw[-4:]
+    if kind == "append":
+        sec += bytes.fromhex(variant[1])
+    elif kind == "strip":
+        del sec[len(sec) - variant[1] :]
+    elif kind == "insert":
+        sec.insert(variant[1], variant[2])
+    elif kind == "delete":
+        del sec[variant[1]]
+    else:
+        return raw
+    out = head + sec + mac
+    if len(out) - 10 > 255:
+        return None
+    out[8] = len(out) - 10
+    return bytes(out)
+
+
+def _length_variants(raw, rng):
+    n = len(raw) - 22  # octets of the secured APDU
+    out = [("append", bytes(k).hex()) for k in range(1, 17)]
+    out += [("append", "ff"), ("append", "00ff"), ("append", rng.randbytes(3).hex()), ("append", "80")]
+    out += [("strip", k) for k in range(1, min(n, 17) + 1)]
+    positions = range(n + 1) if n <= 24 else sorted({0, 1, 2, n - 1, n, *rng.sample(range(n + 1), 12)})
+    for pos in positions:
+        out.append(("insert", pos, 0))
+        out.append(("insert", pos, rng.randrange(1, 256)))
+        if pos < n:
+            out.append(("delete", pos))
+    return out
 
 
 def _frame(ctx, spec, only=None):
@@ -154,12 +184,15 @@ def _frame(ctx, spec, only=None):
         variants += [("flip", i) for i in range(nbits)]
         variants += [("trunc", k) for k in range(len(raw))]
         variants += [("trunc_fix", k) for k in range(10, len(raw))]
+        variants += _length_variants(raw, ctx.rng)
     else:
         variants.append(tuple(only))
     for variant in variants:
         if variant[0] in ("wrongkey", "api"):
             continue
         tampered = _variant(raw, variant)
+        if tampered is None or tampered == raw:
+            continue
         out = _receiver(spec).feed(tampered)
         ctx.ev()
         if variant[0] == "flip":
@@ -184,10 +217,18 @@ def _frame(ctx, spec, only=None):
                                   f"flipping only a {name} bit makes the receiver discard the frame ({out.kind()})")
             else:
                 ctx.count(f"noclaim_{name}_{out.kind()}")
-        else:
+        elif variant[0] in ("trunc", "trunc_fix"):
             ctx.count("truncations")
             ctx.distinct((alg, variant[0], min(variant[1], 30), out.kind()))
             _judge_rejected(ctx, spec, out, variant[0], f"truncated-frame-delivered-{alg}", list(variant))
+        else:
+            ctx.count("length_tampers")
+            ctx.count(f"length_tamper_{variant[0]}")
+            if apdu.endswith(b"\x00"):
+                ctx.count("length_tampers_on_apdu_ending_in_zero")
+            ctx.distinct((alg, variant[0], out.kind(), apdu.endswith(b"\x00")))
+            _judge_rejected(ctx, spec, out, "secured-apdu-" + variant[0], f"secured-apdu-length-changed-by-{variant[0]}-delivered-{alg}",
+                            list(variant))
     if len(ctx.samples) < 4 and only is None:
         ctx.sample({"alg": alg, "kind": kind, "apdu_len": len(apdu) - 1, "raw": raw[:40], "bits_flipped": nbits,
                     "truncations": 2 * len(raw) - 10})
@@ -274,6 +315,15 @@ def _api(ctx, spec, rng):
 
 def _spec(rng, alg, kind, length):
     payload = group_payload(rng, length)
+    if length >= 2 and rng.random() < 0.5:
+        # APDU ending in zero octets (zero padding of the CBC-MAC input must not make its length malleable)
+        from xknx.dpt import DPTArray
+        from xknx.telegram.apci import GroupValueWrite
+
+        data = bytearray(rng.randbytes(length - 1))
+        k = rng.randrange(1, min(len(data), 4) + 1)
+        data[len(data) - k :] = bytes(k)
+        payload = GroupValueWrite(DPTArray(tuple(data)))
     sa = rng.randrange(1, 0x10000)
     da = 0 if kind == "broadcast" else rng.randrange(1, 0x10000)
     seq = rng.randrange(2, 1 << 48) if rng.random() < 0.8 else rng.choice((2, 255, 256, (1 << 48) - 1))
@@ -290,7 +340,8 @@ def run(ctx):
         "(with and without repaired length octet), 138 wrong keys on a subset, parameter tampering at get_plain_apdu; "
         "distinct = (algorithm, TPCI kind, APDU length class, bit class, bit position, outcome)"
     )
-    ctx.require("baseline_delivered", "flips_protected", "flips_unprotected", "unprotected_flip_accepted", "truncations", "wrong_keys",
+    ctx.require("baseline_delivered", "flips_protected", "flips_unprotected", "unprotected_flip_accepted", "truncations", "wrong_keys", "length_tampers", "length_tamper_append",
+                "length_tamper_strip", "length_tamper_insert", "length_tamper_delete", "length_tampers_on_apdu_ending_in_zero",
                 "frames_enc", "frames_auth", "frames_short", "frames_long", "api_baseline_ok", "api_tampers",
                 "rejected_mac", "rejected_secured_apdu", "rejected_sequence_number", "rejected_scf", "rejected_source",
                 "rejected_destination", "rejected_tpci", "rejected_address_type", "rejected_extended_frame_format",
